@@ -208,6 +208,23 @@ def run(ctx):
                     a = norm(Tf.call_args(bb)[0])
                     good = a[0] == "payload" and a[1] == "Ok"
             ctx.check(good, "R3", "lifetime-of-ok-reply<-get_expiry", ctx.where(fb), "for an Ok reply the lifetime is the reply's minimum TTL")
+            # ... for *every* Ok reply: nothing else is returned on the Ok side of the result (a fixed lifetime for some rcode outlives
+            # the TTLs of the records that reply carries)
+            ok_edges = []
+            for sb, stm in fb.terms():
+                if stm["k"] == "switch":
+                    d = norm(Tf.at_term(stm["discr"], sb))
+                    if d[0] == "discr" and norm(d[1]) == ("param", 2):
+                        ok_edges.extend(discr_edges(cf, sb, 0))
+            others = []
+            for bb, idx, st in fb.stmts():
+                if st["p"] == (0,) and "rv" in st and edge_dominated(cf, ok_edges, bb):
+                    others.append(P.rel(st["sp"]))
+            for bb, tm in fb.calls():
+                if tuple(tm["dest"]) == (0,) and callee_name(tm) not in exp and edge_dominated(cf, ok_edges, bb):
+                    others.append(P.rel(tm["sp"]))
+            ctx.check(bool(ok_edges) and not others, "R3", "every-ok-reply-lives-as-long-as-its-records", ctx.where(fb),
+                      "on the Ok side of the upstream result the lifetime must always be get_expiry(reply); other values are returned at %s" % (others or "-"))
         if fid.endswith("CacheHandler::insert_cache_entry"):
             ctx.saw(fb)
             Tf = terms(P, fb)
